@@ -55,6 +55,8 @@ theorem evalI_reads (F : Funs) (env : List (Name × Int)) (σ : Store) :
     · exact Or.inr (evalI_reads F env σ b x h)
   | .lnot a, x, h => by
     simp only [evalI] at h; simp only [depVars]; exact evalI_reads F env σ a x h
+  | .attr a n, x, h => by
+    simp only [evalI] at h; simp only [depVars]; exact evalI_reads F env σ a x h
   | .land cs, x, h => by simp only [evalI] at h; simp only [depVars]; exact evalAll_reads F env σ cs x h
   | .lor cs, x, h => by simp only [evalI] at h; simp only [depVars]; exact evalAny_reads F env σ cs x h
   | .ite c t e, x, h => by
@@ -159,6 +161,9 @@ theorem evalI_agree (F : Funs) (env : List (Name × Int)) {σ σ' : Store} :
     simp only [depVars] at h
     simp only [evalI, evalI_agree F env a (agree_app_left h), evalI_agree F env b (agree_app_right h)]
   | .lnot a, h => by
+    simp only [depVars] at h
+    simp only [evalI, evalI_agree F env a h]
+  | .attr a n, h => by
     simp only [depVars] at h
     simp only [evalI, evalI_agree F env a h]
   | .land cs, h => by simp only [evalI]; exact evalAll_agree F env cs h
